@@ -39,20 +39,28 @@ var (
 // that follows the documented contract of Walk (Lstat semantics, lexical
 // order, SkipDir handling) statement by statement.
 func StubC15Walk(root string, fn filepath.WalkFunc) error {
-	var start *c15Node
-	if root == c15Root.abs {
-		start = c15Root
-	}
-	for _, n := range c15Nodes {
-		if start == nil && root == n.abs {
-			start = n
+	find := func(p string) *c15Node {
+		if p == c15Root.abs {
+			return c15Root
 		}
+		for _, n := range c15Nodes {
+			if p == n.abs {
+				return n
+			}
+		}
+		return nil
+	}
+	start := find(root)
+	if start == nil {
+		// the operating system resolves "." and ".." components; without
+		// symbolic links in the way that is the lexically cleaned path
+		start = find(filepath.Clean(root))
 	}
 	var err error
 	if start == nil {
 		err = fn(root, nil, errC15NotExist)
 	} else {
-		err = c15walk(start, fn)
+		err = c15walk(start, root, fn)
 	}
 	if err == filepath.SkipDir || err == filepath.SkipAll {
 		return nil
@@ -60,16 +68,19 @@ func StubC15Walk(root string, fn filepath.WalkFunc) error {
 	return err
 }
 
-func c15walk(n *c15Node, fn filepath.WalkFunc) error {
+// c15walk: Walk reports the root as given and every other entry as
+// filepath.Join(dir, name), i.e. the cleaned directory path + "/" + name
+// (names are single regular components).
+func c15walk(n *c15Node, path string, fn filepath.WalkFunc) error {
 	info := c15Info{n}
 	if !info.IsDir() {
-		return fn(n.abs, info, nil)
+		return fn(path, info, nil)
 	}
-	if err1 := fn(n.abs, info, nil); err1 != nil {
+	if err1 := fn(path, info, nil); err1 != nil {
 		return err1
 	}
 	for _, k := range n.kids {
-		if err := c15walk(k, fn); err != nil {
+		if err := c15walk(k, n.abs+"/"+k.name, fn); err != nil {
 			if !k.mode.IsDir() || err != filepath.SkipDir {
 				return err
 			}
@@ -208,17 +219,23 @@ func VerifC15Files() {
 			return argT{e0.abs, e0}
 		case 5:
 			return argT{e0.name + "/...", e0}
-		default:
+		case 6:
 			nd.Assume(len(e0.kids) > 0)
 			f0 := e0.kids[0]
 			return argT{e0.name + "/" + f0.name, f0}
+		case 7: // absolute, not in shortest form
+			return argT{cwd + "/./" + e0.name, e0}
+		default:
+			nd.Assume(len(e0.kids) > 0)
+			f0 := e0.kids[0]
+			return argT{e0.abs + "/../" + e0.name + "/" + f0.name, f0}
 		}
 	}
 	nargs := nd.Param("MINARGS", 1) + nd.Choose("nargs", nd.Param("MAXARGS", 2)-nd.Param("MINARGS", 1)+1)
 	var args []argT
 	var patterns []string
 	for i := 0; i < nargs; i++ {
-		a := mk(nd.Choose("arg", 7))
+		a := mk(nd.Choose("arg", nd.Param("ARGFORMS", 9)))
 		args = append(args, a)
 		patterns = append(patterns, a.s)
 	}
@@ -259,7 +276,8 @@ func VerifC15Files() {
 		isgo := c15IsGo(n)
 		cnt := 0
 		for _, f := range files {
-			cnt = cnt + nd.Ite(nd.StrEq(f.Absolute, n.abs), 1, 0)
+			// the same file under another spelling of its path is the same file
+			cnt = cnt + nd.Ite(nd.StrEq(filepath.Clean(f.Absolute), n.abs), 1, 0)
 		}
 		nd.Assert(nd.Implies(nd.And(isgo, must), cnt == 1), "a requested Go file is not processed exactly once")
 		nd.Assert(nd.Implies(nd.Not(nd.And(isgo, reach)), cnt == 0), "a file that must not be processed is in the result")
@@ -269,7 +287,7 @@ func VerifC15Files() {
 	for i, f := range files {
 		known := false
 		for _, n := range c15Nodes {
-			known = nd.Or(known, nd.StrEq(f.Absolute, n.abs))
+			known = nd.Or(known, nd.StrEq(filepath.Clean(f.Absolute), n.abs))
 		}
 		nd.Assert(known, "result contains a path that is not in the tree")
 		if i > 0 {
